@@ -1009,7 +1009,9 @@ func (context *layoutContext) makeAllPages(rootBox bo.BlockLevelBoxITF, html *tr
 			resumeAt tree.ResumeStack
 			page     *bo.PageBox
 		)
-		if len(pages) == 0 || remakeState.ContentChanged || remakeState.PagesWanted {
+		// A page that did not exist in the previous round can't be up-to-date
+		// (e.g. the page made for the footnotes reported by a re-made page).
+		if len(pages) == 0 || i >= len(pages) || remakeState.ContentChanged || remakeState.PagesWanted {
 			logger.ProgressLogger.Printf("Step 5 - Creating layout - Page %d", i+1)
 			// Reset remakeState
 			context.pageMaker[i].RemakeState = tree.RemakeState{}
